@@ -84,6 +84,14 @@ def gen_node(seed, tier):
             if j % 4 == 3:
                 ops.append('P')
         cases.append('NODE mode=%d ndev=1 src=30 q=40 slots=8 t0=5000 | ' % r.choice([2, 0, 4]) + ' ; '.join(ops + ['P', 'P']))
+    # a transport-protocol announcement of more than 223 bytes (ISO-TP allows 1785): refused, nothing is passed on however many data packets
+    # follow - also for sizes whose low byte alone would fit (300 = 0x012c; seed C14-24)
+    for size in ([300, 256 + 223, 224] if not thorough else [224, 255, 256, 257, 300, 479, 480, 512 + 44, 1785]):
+        ops = [tp_rts(129029, 70, 255, size, bam=True), 'P']
+        for k in range(1, min((size + 6) // 7, 60) + 1):
+            ops += [tp_dt(70, 255, k, [r.randrange(256) for _ in range(7)]), 'P']
+        ops += sender_stream(r, 129029, 71, 255, bytes(r.randrange(256) for _ in range(20)), prio=3, sid=1) + ['P', 'P']
+        cases.append('NODE mode=%d ndev=1 src=30 q=40 slots=5 t0=5000 | ' % r.choice([2, 0, 1]) + ' ; '.join(ops))
     return cases + cold_open_cases(r, thorough)
 
 
@@ -91,7 +99,8 @@ def cold_open_cases(r, thorough):
     cases = []
     for _ in range(6 if not thorough else 80):
         mode = r.choice([2, 2, 1, 0, 4])
-        line = 'NODE mode=%d ndev=1 src=30 q=40 slots=5 t0=%d cold=1' % (mode, r.choice([5000, 4294967000]))
+        # (origins incl. the ones at which the 200 ms open delay, armed at the second poll, ends exactly on 0xffffffff in the 32-bit build: seed C14-22)
+        line = 'NODE mode=%d ndev=1 src=30 q=40 slots=5 t0=%d cold=1' % (mode, r.choice([5000, 4294967000, 4294967295 - 201, 4294967295 - 201, 4294967295 - 200, 4294967295]))
         fr = lambda s: rx(can_id(r.choice([2, 3, 6]), r.choice([127250, 129025, 130306]), s, 255), [r.randrange(256) for _ in range(8)])
         ops = ['P', 'T 1', 'P', 'T %d' % r.choice([10, 100]), fr(60), 'P', 'T %d' % r.choice([250, 300, 1000])]
         ops += [fr(61 + j) for j in range(r.choice([1, 2, 5]))] + ['P']                     # waiting at the call that completes Open()
@@ -119,7 +128,10 @@ def complete_messages(ops):
             pgn = (idv >> 8) & 0x1ffff; dst = 255
         if pgn == 60416:
             if buf[0] == 32:
-                tp[(src, dst)] = [buf[5] | buf[6] << 8 | buf[7] << 16, buf[1] | buf[2] << 8, [], 0]
+                if (buf[1] | buf[2] << 8) > 223:
+                    tp.pop((src, dst), None)       # announces more than a message can hold: refused as a whole, nothing of it is delivered
+                else:
+                    tp[(src, dst)] = [buf[5] | buf[6] << 8 | buf[7] << 16, buf[1] | buf[2] << 8, [], 0]
             continue
         if pgn == 60160:
             s = tp.get((src, dst))
